@@ -38,6 +38,10 @@ inductive ConstValue where
   | concrete (k : Nat)
   deriving DecidableEq, Repr, Inhabited
 
+inductive Variance where
+  | co | inv | contra
+  deriving DecidableEq, Repr, Inhabited
+
 /-- The head of a "name applied to a substitution" type. -/
 inductive TyName where
   | adt (id : Nat)
@@ -130,5 +134,29 @@ def QWCs.ofList : List QWC → QWCs
   | .cons a as => by simp [Args.ofList, Args.toList, Args.ofList_toList as]
 
 def Args.length (a : Args) : Nat := a.toList.length
+
+/-- `AliasTy` -/
+inductive Alias where
+  | proj (id : Nat) (args : Args)
+  | opaque (id : Nat) (args : Args)
+  deriving DecidableEq, Repr
+
+/-- `DomainGoal` (all 12 variants; `WellFormed`/`FromEnv` split into their two variants). -/
+inductive DomainGoal where
+  | holds (wc : WC)
+  | wfTrait (tr : Nat) (args : Args)
+  | wfTy (t : Ty)
+  | fromEnvTrait (tr : Nat) (args : Args)
+  | fromEnvTy (t : Ty)
+  | normalize (alias : Alias) (ty : Ty)
+  | isLocal (t : Ty)
+  | isUpstream (t : Ty)
+  | isFullyVisible (t : Ty)
+  | localImplAllowed (tr : Nat) (args : Args)
+  | compatible
+  | downstreamType (t : Ty)
+  | reveal
+  | objectSafe (tr : Nat)
+  deriving DecidableEq, Repr
 
 end Chalk
